@@ -44,6 +44,11 @@ def one_case(args):
     payload = "its" if mode == "view_data" else ("none" if (big or rng.random() < 0.2) else "random")
     maxp = None if npk <= 400 else rng.choice([0, 32, 300])
     pkts = frame.generate(rng, npk, payload=payload, max_payload=maxp, its_only=(mode == "view_data"))
+    if npk >= 30 and rng.random() < 0.12:
+        # extreme: more distinct link ids than one CRU serves (up to all 256 values)
+        K = rng.choice([25, 40, 256])
+        for i, p in enumerate(pkts):
+            p.f["link_id"] = (i * 7) % K
     data = frame.serialize(pkts)
     flt = pick_filter(rng, pkts)
     if mode == "writer" and flt is None:
